@@ -260,7 +260,11 @@ class Interp(object):
             return self.cfg.decide(('truth', v.key), [True, False])
         if isinstance(v, (Obj, Inst, ClassRef, FuncRef)):
             return True
-        return bool(v)
+        try:
+            return bool(v)
+        except ValueError as ex:
+            # a model value whose truth is an error in the modelled library (an array of several elements)
+            raise Raised('ValueError: %s' % ex, None, None)
 
     def sym_const(self, s):
         """(constant,) when an earlier decision fixed the option to a constant"""
@@ -394,7 +398,9 @@ class Interp(object):
                 if len(e.ops) == 1:
                     return r
                 r = self.truth(r)
-            if not r:
+            if len(e.ops) == 1 and not isinstance(r, (bool, int)) and hasattr(type(r), '__bool__'):
+                return r            # a model value whose truth is decided (or is an error) where it is tested
+            if not self.truth(r):
                 return False
             left = right
         return res
